@@ -428,6 +428,19 @@ def oracle_public(ctx, count):
             'fc_block_jacobi': (lambda y: R.fc_block_jacobi(Afmt, y, b, Cpts, Fpts, blocksize=bs, iterations=its, omega=om),
                                 rep(lambda y: _seq(y, [lambda v: ref_block_jacobi(D, v, b, Fpts, om, bs, Dinv),
                                                        lambda v: ref_block_jacobi(D, v, b, Cpts, om, bs, Dinv)]), its)),
+            # different numbers of C and F sweeps (the defaults 1 / 1 cannot tell which count belongs to which set)
+            'cf_block_jacobi/2F-1C': (lambda y: R.cf_block_jacobi(Afmt, y, b, Cpts, Fpts, blocksize=bs, iterations=its, f_iterations=2, c_iterations=1, omega=om),
+                                      rep(lambda y: _seq(y, [lambda v: ref_block_jacobi(D, v, b, Cpts, om, bs, Dinv)] +
+                                                         [lambda v: ref_block_jacobi(D, v, b, Fpts, om, bs, Dinv)] * 2), its)),
+            'fc_block_jacobi/1F-3C': (lambda y: R.fc_block_jacobi(Afmt, y, b, Cpts, Fpts, blocksize=bs, iterations=its, f_iterations=1, c_iterations=3, omega=om),
+                                      rep(lambda y: _seq(y, [lambda v: ref_block_jacobi(D, v, b, Fpts, om, bs, Dinv)] +
+                                                         [lambda v: ref_block_jacobi(D, v, b, Cpts, om, bs, Dinv)] * 3), its)),
+            'cf_jacobi/1F-3C': (lambda y: R.cf_jacobi(Afmt, y, b, Cpts, Fpts, iterations=its, f_iterations=1, c_iterations=3, omega=om),
+                                rep(lambda y: _seq(y, [lambda v: ref_jacobi(D, v, b, pt_rows(Cpts), om)] * 3 +
+                                                   [lambda v: ref_jacobi(D, v, b, pt_rows(Fpts), om)]), its)),
+            'fc_jacobi/3F-1C': (lambda y: R.fc_jacobi(Afmt, y, b, Cpts, Fpts, iterations=its, f_iterations=3, c_iterations=1, omega=om),
+                                rep(lambda y: _seq(y, [lambda v: ref_jacobi(D, v, b, pt_rows(Fpts), om)] * 3 +
+                                                   [lambda v: ref_jacobi(D, v, b, pt_rows(Cpts), om)]), its)),
             'jacobi_ne': (lambda y: R.jacobi_ne(Afmt, y, b, iterations=its, omega=om),
                           rep(lambda y: ref_jacobi_ne(D, y, b, om), its)),
             'gauss_seidel_ne': (lambda y: R.gauss_seidel_ne(Afmt, y, b, iterations=its, sweep=sweep, omega=om),
@@ -438,7 +451,7 @@ def oracle_public(ctx, count):
         if not all(block_ok(D[k * bs:(k + 1) * bs, k * bs:(k + 1) * bs]) for k in range(nb)):
             # a diagonal block with a singular value in the band where "numerically zero" depends on the
             # pseudo-inverse routine's cut-off: the block update is not defined "to rounding" there
-            for nm in ('block_jacobi', 'block_gauss_seidel', 'cf_block_jacobi', 'fc_block_jacobi'):
+            for nm in ('block_jacobi', 'block_gauss_seidel', 'cf_block_jacobi', 'fc_block_jacobi', 'cf_block_jacobi/2F-1C', 'fc_block_jacobi/1F-3C'):
                 tests.pop(nm)
             ctx.count('oracle:block-tests-skipped-ill-conditioned-block')
         if fmt == 'csr':
